@@ -43,23 +43,33 @@ def verify(src, sid):
     print("kept as", dst); return 0
 
 def run(sid, tier="quick"):
+    """apply the seeded patch in a scratch worktree of /repo's HEAD and run the property's check on it
+    (PYBROPS_REPO=<worktree>), so that other work using /repo is not disturbed; `run_inplace` applies it to
+    /repo itself exactly as the brief describes."""
     d = os.path.join(VERIF, "seeded", sid)
     meta = json.load(open(os.path.join(d, "meta.json")))
     pid = meta["property"]
-    rc, out = sh("git -C /repo status --porcelain")
-    assert out.strip() == "", "/repo not clean: " + out
-    rc, out = sh(f"git -C /repo apply {d}/patch.diff")
+    wt = f"/tmp/sr_{sid}"
+    sh(f"git -C /repo worktree remove --force {wt}")
+    rc, out = sh(f"git -C /repo worktree add --detach {wt} HEAD")
     assert rc == 0, out
     t = time.time()
     try:
-        rc, out = sh(f"./check {pid} --tier {tier}", cwd=VERIF, timeout=7200)
+        rc, out = sh(f"git -C {wt} apply {d}/patch.diff")
+        if rc != 0:
+            print(sid, "patch does not apply to current HEAD:", out.strip()[:200])
+            meta.setdefault("check_results", {})[tier] = {"tier": tier, "caught": None, "note": "patch no longer applies to /repo HEAD (superseded by a fix commit)"}
+            json.dump(meta, open(os.path.join(d, "meta.json"), "w"), indent=1)
+            return 0
+        rc, out = sh(f"PYBROPS_REPO={wt} ./check {pid} --tier {tier}", cwd=VERIF, timeout=7200)
     finally:
-        sh("git -C /repo checkout -- .")
+        sh(f"git -C /repo worktree remove --force {wt}")
         sh(f"git -C {VERIF} checkout -- lean/PybropsModel/Generated")   # regenerated files back to the clean-tree snapshot
     lines = [l for l in out.splitlines() if l.startswith(("VIOLATION", "KNOWN-FINDING", "HARNESS-ERROR", f"[{pid}]"))]
     res = {"tier": tier, "exit": rc, "caught": rc == 1 and any(l.startswith("VIOLATION") for l in lines),
            "with_failing_input": any(l.startswith("VIOLATION") and "no-failing-input-found" not in l for l in lines),
-           "lines": [l[:400] for l in lines][-6:], "wall_s": round(time.time() - t, 1)}
+           "lines": [l[:400] for l in lines][-6:], "wall_s": round(time.time() - t, 1),
+           "repo_head": sh("git -C /repo rev-parse --short=8 HEAD")[1].strip()}
     meta.setdefault("check_results", {})[tier] = res
     json.dump(meta, open(os.path.join(d, "meta.json"), "w"), indent=1)
     print(sid, json.dumps(res)[:900])
